@@ -84,12 +84,20 @@ class ShardStats:
         self.samples = {}
         self.failures = {}
         self.skipped = 0
-        self.crash_is_harness = None
+        self.nt_extra = 0
 
     def record(self, case, classes, failures):
         self.evals += 1
         nontrivial = False
         for c in classes:
+            if c.startswith("@"):  # counters reported by composite cases (fuzz campaigns): @evals=N, @nt=N, @execs=N
+                k, _, v = c[1:].partition("=")
+                if k == "evals":
+                    self.evals += int(v) - 1
+                elif k == "nt":
+                    self.nt_extra += int(v)
+                self.classes["@" + k] += int(v)
+                continue
             self.classes[c] += 1
             if c.startswith("nt:"):
                 nontrivial = True
@@ -238,6 +246,7 @@ def run_shard(job):
             evals=stats.evals,
             classes=dict(stats.classes),
             nt=stats.nt,
+            nt_extra=stats.nt_extra,
             samples=stats.samples,
             failures=stats.failures,
             skipped=stats.skipped,
@@ -383,6 +392,7 @@ def main(argv=None):
             per_target_evals[res["target"]] += res["evals"]
             st.classes.update(res["classes"])
             st.nt |= res["nt"]
+            st.nt_extra += res.get("nt_extra", 0)
             skipped += res["skipped"]
             for c, s in res["samples"].items():
                 st.samples.setdefault(c, s)
@@ -449,7 +459,7 @@ def main(argv=None):
     per_target = {}
     for name, st in agg["stats"].items():
         nt_all |= {(name, d) for d in st.nt}
-        per_target[name] = {"evaluations": st.evals, "distinct_nontrivial": len(st.nt)}
+        per_target[name] = {"evaluations": st.evals, "distinct_nontrivial": len(st.nt) + st.nt_extra}
         for c, n in st.classes.items():
             hist[f"{name}/{c}"] = n
         for c, s in st.samples.items():
@@ -467,7 +477,7 @@ def main(argv=None):
         "level": mod.LEVEL,
         "coverage": {
             "evaluations": total_evals,
-            "distinct_nontrivial": len(nt_all),
+            "distinct_nontrivial": len(nt_all) + sum(st.nt_extra for st in agg["stats"].values()),
             "rule": mod.RULE,
             "samples": samples,
             "class_histogram": dict(sorted(hist.items())),
@@ -495,7 +505,7 @@ def main(argv=None):
 
     # ---- report
     print(
-        f"[{pid}] tier={tier} seed={seed} evaluations={total_evals} distinct_nontrivial={len(nt_all)} "
+        f"[{pid}] tier={tier} seed={seed} evaluations={total_evals} distinct_nontrivial={evidence['coverage']['distinct_nontrivial']} "
         f"targets={len(targets)} wall={evidence['wall_s']}s"
     )
     for name in per_target:
